@@ -161,14 +161,22 @@ func VHarnessC16SeqTwin() {
 func VHarnessC16Map() {
 	keys := []starlark.Value{starlark.String("k1"), starlark.MakeInt(2), starlark.String("k3")}
 	nested := vParam("nested") == 1
+	// nested=2: the old side holds ints and the new side the numerically equal floats (1 == 1.0 in
+	// Starlark: an unchanged key although the types differ)
+	numeric := vParam("nested") == 2
 	mk := func(tag string) (*starlark.Dict, [3]int) {
 		d := starlark.NewDict(3)
 		var vals [3]int
 		for i, k := range keys {
 			v := vElem(tag) // 0 = absent, 1/2 = value
+			if numeric {
+				v = vChoose(tag+"-value", 3)
+			}
 			vals[i] = v
 			if v != 0 {
-				if nested {
+				if numeric && tag == "b" {
+					d.SetKey(k, starlark.Float(float64(v)))
+				} else if nested {
 					d.SetKey(k, starlark.Tuple{starlark.MakeInt(v), starlark.String("x")})
 				} else {
 					d.SetKey(k, starlark.MakeInt(v))
@@ -273,13 +281,19 @@ func VHarnessC16Nested() {
 
 // VHarnessC16Literal: values of different kinds give a literal diff with the sides in order.
 func VHarnessC16Literal() {
-	vals := []starlark.Value{starlark.None, starlark.True, starlark.MakeInt(vElem("i")), starlark.String("s"), starlark.Tuple{starlark.MakeInt(1)}, starlark.NewDict(0), starlark.Float(1.5)}
+	vals := []starlark.Value{starlark.None, starlark.True, starlark.MakeInt(vElem("i")), starlark.String("s"), starlark.Tuple{starlark.MakeInt(1)}, starlark.NewDict(0), starlark.Float(1.5),
+		starlark.MakeInt(1), starlark.Float(1), starlark.Float(2), starlark.MakeInt(2)}
+	if vParam("a") >= 7 || vParam("b") >= 7 {
+		vals[2] = starlark.MakeInt(1) // against the numeric values 7..10 the int is concrete
+	}
 	a, b := vals[vParam("a")], vals[vParam("b")]
-	vRegion("D3-swapped-sides", vParam("a") >= 3 && vParam("b") >= 3) // string vs tuple: both sliceable
+	vRegion("D3-swapped-sides", vParam("a") >= 3 && vParam("b") >= 3 && vParam("a") < 6 && vParam("b") < 6) // string vs tuple: both sliceable
 	d, err := Diff(a, b)
 	vAssert(err == nil, "literal-no-error")
-	if vParam("a") == vParam("b") {
+	// equality is Starlark's: an int and the numerically equal float are equal
+	if vParam("a") == vParam("b") || (vParam("a") >= 7 && vParam("b") >= 7 && vEqual(a, b)) || (vParam("a") == 2 && vParam("b") >= 7 || vParam("b") == 2 && vParam("a") >= 7) && vEqual(a, b) {
 		vAssert(d == nil, "literal-equal-has-no-diff")
+		vReach("literal-equal")
 		return
 	}
 	vAssert(d != nil, "literal-unequal-has-diff")
